@@ -111,6 +111,10 @@ fn guarded<R>(f: impl FnOnce() -> R) -> Result<R, Outcome> {
             arena::clear_note();
             // a library constructor refusing the (deliberately misaligned / short) byte slice
             // the harness offered is a documented error, not a panic of the library
+            if loc.contains("simexec/src/images.rs") && msg.contains("on an `Err` value: ") && msg.contains("OutOfImageBoundaries") {
+                let v = if msg.contains("PositionIsOutOfImageBoundaries") { "PositionIsOutOfImageBoundaries" } else { "SizeIsOutOfImageBoundaries" };
+                return Err(Outcome::Err(format!("CropBoxError::{}", v)));
+            }
             if loc.contains("simexec/src/images.rs") && msg.contains("on an `Err` value: Invalid") {
                 let v = if msg.contains("InvalidBufferAlignment") { "InvalidBufferAlignment" } else { "InvalidBufferSize" };
                 return Err(Outcome::Err(format!("ImageBufferError::{}", v)));
